@@ -1013,3 +1013,165 @@ def leading_dimension_agreement(chk, cid, prog, fnames, cfgname, floor=4):
         from ..run import AnalysisBroken
         raise AnalysisBroken('%s: %d dense arrays with a leading dimension found, floor %d' % (cid, n, floor))
     return n
+
+
+def paired_cursor_rule(chk, cid, prog, fnames, cfgname, floor=4):
+    """A supernode of L stores its row subscripts once (Lstore->rowind from rowind_colptr[fsupc]) and the values of each column from
+    nzval_colptr[col], entry k of a column belonging to subscript k of the list.  The scalar loops of sp_?trsv / ?gstrs walk both with two
+    cursors.  At every use `Lval[Q]` together with a row taken from `Lstore->rowind[P]` in the same iteration the two cursors must be the same
+    distance from their starts: (P - rowind_colptr[fsupc]) == (Q - nzval_colptr[col]).  The distances are linear forms (constant + symbols such
+    as nsupc) that advance by the increments executed before the use; both must advance by one per iteration."""
+    from .expand import _lin
+    chk.clause(cid, 'subscript cursor and value cursor of a supernode column are equally far from their starts wherever they are used together')
+    n = 0
+
+    def is_member_index(e, field):
+        e = strip(e)
+        return e.k == 'Index' and strip(e.c[0]).k == 'Member' and strip(e.c[0]).a.get('name') == field
+
+    for fname in fnames:
+        f = prog.func(fname)
+        if f is None:
+            from ..run import AnalysisBroken
+            raise AnalysisBroken('%s not found' % fname)
+        chk.saw(unit=f.unit, func=f.unit + ':' + f.name)
+        # variables that hold a start: v = Lstore->rowind_colptr[..]  /  v = Lstore->nzval_colptr[..]
+        starts = {}
+        for x in f.body.walk():
+            if x.k == 'Assign' and x.a['op'] == '=' and strip(x.c[0]).k == 'Ref':
+                for field, kind in (('rowind_colptr', 'sub'), ('nzval_colptr', 'val')):
+                    if is_member_index(x.c[1], field):
+                        starts[strip(x.c[0]).a.get('id')] = kind
+
+        def offset(e):
+            """(kind, linear offset) of a cursor expression relative to a start, or None"""
+            e = strip(e)
+            for field, kind in (('rowind_colptr', 'sub'), ('nzval_colptr', 'val')):
+                if is_member_index(e, field):
+                    return (kind, {})
+            if e.k == 'Ref' and e.a.get('id') in starts:
+                return (starts[e.a.get('id')], {})
+            if e.k == 'Binary' and e.a['op'] in ('+', '-'):
+                a = offset(e.c[0])
+                b = _lin(e.c[1])
+                if a is not None and b is not None:
+                    out = dict(a[1])
+                    for k_, c in b.items():
+                        out[k_] = out.get(k_, 0) + (c if e.a['op'] == '+' else -c)
+                    return (a[0], {k_: c for k_, c in out.items() if c})
+            return None
+
+        def enclosing_blocks(target):
+            path = []
+
+            def find(nd, stack):
+                if nd is target:
+                    path.extend(stack)
+                    return True
+                for c in nd.c:
+                    if find(c, stack + [nd]):
+                        return True
+                return False
+            find(f.body, [])
+            return path
+        for lp in f.body.walk():
+            if lp.k != 'For' or any(y.k == 'For' for y in lp.c[3].walk()):
+                continue
+            body = lp.c[3].c if lp.c[3].k == 'Block' else [lp.c[3]]
+            if not any(is_member_index(y, 'rowind') for st in body for y in st.walk()):
+                continue
+            if not any(y.k == 'Index' and strip(y.c[0]).k == 'Ref' and strip(y.c[0]).a.get('name') == 'Lval' for st in body for y in st.walk()):
+                continue
+            # cursor values at loop entry
+            cur = {}
+            i0 = strip(lp.c[0]) if lp.c[0] is not None else None
+            if i0 is not None and i0.k == 'Assign' and strip(i0.c[0]).k == 'Ref':
+                o = offset(i0.c[1])
+                if o:
+                    cur[strip(i0.c[0]).a.get('id')] = o
+            path = enclosing_blocks(lp)
+            wanted = {y.a.get('id') for st in body for y in st.walk() if y.k == 'Ref' and y.a.get('dk') == 'VarDecl'} - set(cur)
+            for anc, child in zip(reversed(path), reversed(path[1:] + [lp])):
+                if anc.k != 'Block':
+                    continue
+                idx = next((k_ for k_, st in enumerate(anc.c) if st is child), None)
+                if idx is None:
+                    continue
+                for st in reversed(anc.c[:idx]):
+                    s0 = strip(st)
+                    if s0.k == 'Assign' and s0.a['op'] == '=' and strip(s0.c[0]).k == 'Ref' and strip(s0.c[0]).a.get('id') in wanted:
+                        o = offset(s0.c[1])
+                        vid = strip(s0.c[0]).a.get('id')
+                        if o and vid not in cur:
+                            cur[vid] = o
+                        wanted.discard(vid)
+            per_iter = {}
+
+            def bump(vid, d):
+                if vid in cur:
+                    k_, lf = cur[vid]
+                    lf = dict(lf)
+                    lf[1] = lf.get(1, 0) + d
+                    cur[vid] = (k_, {a: c for a, c in lf.items() if c})
+                    per_iter[vid] = per_iter.get(vid, 0) + d
+            rows = {}       # row variable -> offset of the subscript cursor when it was loaded
+            uses = []
+            for st in body:
+                for x in _post(st):
+                    if x.k == 'Unary' and x.a['op'] in ('++', '--') and strip(x.c[0]).k == 'Ref':
+                        bump(strip(x.c[0]).a.get('id'), 1 if x.a['op'] == '++' else -1)
+                    elif x.k == 'Assign' and x.a['op'] in ('+=', '-=') and strip(x.c[0]).k == 'Ref' and const_value(x.c[1]) is not None:
+                        bump(strip(x.c[0]).a.get('id'), const_value(x.c[1]) * (1 if x.a['op'] == '+=' else -1))
+                    elif x.k == 'Assign' and x.a['op'] == '=' and strip(x.c[0]).k == 'Ref' and is_member_index(x.c[1], 'rowind'):
+                        p_ = strip(strip(x.c[1]).c[1])
+                        if p_.k == 'Ref' and p_.a.get('id') in cur and cur[p_.a.get('id')][0] == 'sub':
+                            rows[strip(x.c[0]).a.get('id')] = (cur[p_.a.get('id')], p_)
+                    elif x.k == 'Index' and strip(x.c[0]).k == 'Ref' and strip(x.c[0]).a.get('name') == 'Lval':
+                        q_ = strip(x.c[1])
+                        if q_.k == 'Ref' and q_.a.get('id') in cur and cur[q_.a.get('id')][0] == 'val':
+                            uses.append((x, cur[q_.a.get('id')], q_, st))
+            # the loop's own increment expression
+            if lp.c[2] is not None:
+                for x in _post(lp.c[2]):
+                    if x.k == 'Unary' and x.a['op'] in ('++', '--') and strip(x.c[0]).k == 'Ref':
+                        per_iter[strip(x.c[0]).a.get('id')] = per_iter.get(strip(x.c[0]).a.get('id'), 0) + (1 if x.a['op'] == '++' else -1)
+            for (use, (kq, offq), q_, st) in uses:
+                rv = [y for y in st.walk() if y.k == 'Ref' and y.a.get('id') in rows]
+                if not rv:
+                    # complex arithmetic: the product goes through a temporary, the row appears in the following call
+                    k0 = next((k_ for k_, b_ in enumerate(body) if b_ is st), None)
+                    if k0 is not None and k0 + 1 < len(body):
+                        rv = [y for y in body[k0 + 1].walk() if y.k == 'Ref' and y.a.get('id') in rows]
+                if not rv:
+                    continue
+                (ks, offs), p_ = rows[rv[0].a.get('id')]
+                n += 1
+                inst = '%s:cursors-aligned@%d' % (fname, n)
+                same_rate = per_iter.get(q_.a.get('id'), 0) == per_iter.get(p_.a.get('id'), 0) == 1
+                if offs == offq and same_rate:
+                    chk.ok(cid, inst, sample='`%s`: %s and %s are both %s entries past their starts' % (pretty(st)[:50], p_.a['name'], q_.a['name'], _lf_text(offs)))
+                else:
+                    chk.violate(cid, inst, loc(f, use), fname,
+                                'in `%s` the row comes from subscript %s of the supernode list but the value is entry %s of the column (%s / %s advance by %d / %d per '
+                                'iteration): the product pairs a row with the value of another row' % (pretty(st)[:60], _lf_text(offs), _lf_text(offq), p_.a['name'],
+                                q_.a['name'], per_iter.get(p_.a.get('id'), 0), per_iter.get(q_.a.get('id'), 0)), cfgname=cfgname)
+    if n < floor:
+        from ..run import AnalysisBroken
+        raise AnalysisBroken('%s: %d paired cursor uses found, floor %d' % (cid, n, floor))
+    return n
+
+
+def _post(e):
+    for c in e.c:
+        for y in _post(c):
+            yield y
+    yield e
+
+
+def _lf_text(lf):
+    if not lf:
+        return '0'
+    parts = []
+    for k_, c in sorted(lf.items(), key=lambda kv: str(kv[0])):
+        parts.append(str(c) if k_ == 1 else ('%s*v%s' % (c, k_[1]) if c != 1 else 'v%s' % (k_[1],)))
+    return ' + '.join(parts)
